@@ -108,7 +108,7 @@ def scanHead (c : Ctx) (head : Loc) : Option NVal :=
     head.children.findSome? fun ch =>
       match ch.elem? with
       | some me =>
-        if c.tagName me == "meta".toStr && c.isHtmlTag he then metaLangScan me.attrs false none else none
+        if c.tagName me == "meta".toStr && c.isHtmlTag me then metaLangScan me.attrs false none else none
       | none => none
 
 /-- `self.is_html`: the pragma is consulted in HTML documents (XHTML included). -/
